@@ -156,6 +156,8 @@ namespace xsv
         def_int("op_mod", "C01", 2, j_mod).div_like = true;
         def_int("min", "C01", 2, j_min);
         def_int("max", "C01", 2, j_max);
+        def_int("fmin", "C01", 2, j_min);
+        def_int("fmax", "C01", 2, j_max);
         def_int("sadd", "C01", 2, j_sadd);
         def_int("ssub", "C01", 2, j_ssub);
         def_int("avg", "C01", 2, j_avg);
@@ -163,6 +165,7 @@ namespace xsv
         def_int("neg", "C01", 1, j_neg);
         def_int("op_neg", "C01", 1, j_neg);
         def_int("op_pos", "C01", 1, j_pos);
+        def_int("pos", "C01", 1, j_pos);
         def_int("abs", "C01", 1, j_abs);
         def_int("sign", "C01", 1, j_sign);
         def_int("incr", "C01", 1, j_incr);
